@@ -1,9 +1,9 @@
 (* C13 - property theorems only. Statements are about the Mech model of the pinned code (Model.v:
    mech_match, encode/decode, m_step, m_chain, m_qmark, classify, try_like, m_run_a/q/t) and its relation
    to the Spec (spec_match, s_step, s_chain, spec_try, s_run_a/q/t). Proofs: MatchLemmas.v, Transport.v,
-   Chain.v, Try.v, Suite.v. *)
+   Chain.v, Try.v, Suite.v, Seq.v (ModelSeq.v: families R and S - state carried between evaluations). *)
 From Coq Require Import List ZArith Bool Ascii String Arith.
-From Cb Require Import C13.Model C13.MatchLemmas C13.Transport C13.Chain C13.Try C13.Suite.
+From Cb Require Import C13.Model C13.ModelSeq C13.MatchLemmas C13.Transport C13.Chain C13.Try C13.Suite C13.Seq.
 Import ListNotations.
 Local Open Scope Z_scope.
 
@@ -208,19 +208,56 @@ Proof. exact qmark_string_refuted_l. Qed.
 Print Assumptions qmark_ok_yields_payload_refuted.
 
 (* ------------------------------------------------------------------ try / checked *)
-(* for every core expression and operands: the built Result is Ok exactly when the evaluation yields a value,
-   it then carries that value; otherwise it is Err *)
-Theorem try_ok_iff_no_error : forall chk a b e,
-  (s_variant (try_like chk (ceval a b e)) = s2l "Ok" <-> exists v, ceval a b e = inl v) /\
-  (forall v, ceval a b e = inl v ->
-     try_like chk (ceval a b e) = encode (mkC (s2l "Ok") (PInt v)) /\
-     decode (try_like chk (ceval a b e)) = mkC (s2l "Ok") (PInt v)) /\
-  (forall k, ceval a b e = inr k -> s_variant (try_like chk (ceval a b e)) = s2l "Err").
+(* for every core expression - integer-valued or string-valued (literals, parameters, concatenation, names[i], the same
+   inside called functions) - and all operands: the built Result is Ok exactly when the evaluation yields a value; it then
+   carries that value unchanged (integer or non-empty string); otherwise it is Err. Missing: the empty string (refuted below) *)
+Theorem try_ok_iff_no_error : forall chk a b sa sb e,
+  let r := teval a b sa sb e in
+  (s_variant (try_like chk r) = s2l "Ok" <-> exists v, r = inl v) /\
+  (forall v, r = inl v -> v <> TVStr [] ->
+     try_like chk r = encode (mkC (s2l "Ok") (payload_of_tval v)) /\
+     decode (try_like chk r) = mkC (s2l "Ok") (payload_of_tval v)) /\
+  (forall k, r = inr k -> s_variant (try_like chk r) = s2l "Err").
 Proof. exact try_ok_iff_l. Qed.
 Print Assumptions try_ok_iff_no_error.
 
-(* Div0 and Mod0 -> DivisionByZeroError, Bounds -> IndexOutOfBoundsError, Null -> NullPointerError, under try
-   and under checked (modulo was refuted before /repo 4ea336a) *)
+(* the integer instance in the wording of the earlier rounds *)
+Theorem try_ok_iff_no_error_int : forall chk a b e,
+  let r := teval a b [] [] (TEInt e) in
+  (s_variant (try_like chk r) = s2l "Ok" <-> exists v, ceval a b e = inl v) /\
+  (forall v, ceval a b e = inl v ->
+     try_like chk r = encode (mkC (s2l "Ok") (PInt v)) /\ decode (try_like chk r) = mkC (s2l "Ok") (PInt v)) /\
+  (forall k, ceval a b e = inr k -> s_variant (try_like chk r) = s2l "Err").
+Proof. exact try_ok_iff_int_l. Qed.
+Print Assumptions try_ok_iff_no_error_int.
+
+(* build_result_ok writes ONE payload channel of a Variable. (1) Over the fresh Variable the code uses, the Ok decodes to
+   exactly the operand's value. (2) Over ANY other Variable (one kept from an earlier evaluation): every integer Ok is read
+   back correctly IF AND ONLY IF the kept string channel is empty - a string left by an earlier Ok("..") would be bound
+   instead of the number - while a string Ok is always read back correctly. (3) The Err of build_result_err is read back
+   correctly over any Variable (its string is never empty). So freshness of the Ok Variable is exactly what the property needs *)
+Theorem try_ok_needs_fresh_variable :
+  (forall v, v <> TVStr [] ->
+     build_ok_t v = encode (mkC (s2l "Ok") (payload_of_tval v)) /\ decode (build_ok_t v) = mkC (s2l "Ok") (payload_of_tval v)) /\
+  (forall init, ((forall z, decode (build_ok_over init (TVInt z)) = mkC (s2l "Ok") (PInt z)) <-> s_str init = []) /\
+                (forall c s, decode (build_ok_over init (TVStr (c :: s))) = mkC (s2l "Ok") (PStr (c :: s)))) /\
+  (forall init msg chk,
+     decode (build_err_over init msg chk) = mkC (s2l "Err") (PStr (classify msg chk ++ s2l ": " ++ msg)) /\
+     build_err_over fresh_var msg chk = build_err msg chk).
+Proof. exact (conj build_ok_fresh_exact_l (conj build_ok_needs_fresh_l build_err_any_init_l)). Qed.
+Print Assumptions try_ok_needs_fresh_variable.
+
+(* `try (sa + sb)` with two empty strings: Ok("") is stored like Ok(0) and bound as the integer 0 (the recorded
+   empty-string defect #23 reached through try/checked) *)
+Theorem try_ok_iff_no_error_refuted_empty_string :
+  let p := mkT false TRet 0 0 [] [] (TEStr (SCat SSA SSB)) in
+  m_run_t p = mkR [EG1; EArm 0 (VInt 0); EAfter] XOk /\ s_run_t p = mkR [EG1; EArm 0 (VStr []); EAfter] XOk.
+Proof. exact try_empty_string_refuted_l. Qed.
+Print Assumptions try_ok_iff_no_error_refuted_empty_string.
+
+(* Div0 and Mod0 -> DivisionByZeroError, Bounds -> IndexOutOfBoundsError, Null -> NullPointerError, a string expression
+   other than a variable/literal as the argument of a string parameter -> TypeCastError, under try and under checked
+   (modulo was refuted before /repo 4ea336a) *)
 Theorem try_err_class : forall chk k,
   try_like chk (inr k) = encode (mkC (s2l "Err") (PStr (class_name k ++ s2l ": " ++ err_msg k))).
 Proof. exact try_err_class_l. Qed.
@@ -239,8 +276,9 @@ Proof. exact classify_general. Qed.
 Print Assumptions classify_order.
 
 (* `return try e;` and the declaration `R r = try e;` (in a Result function, a void function or main): the
-   statement completes, the next statement runs and the Result is what the property says, for every expression
-   and operands. Missing: every other position of try/checked (assignment: refuted below) *)
+   statement completes, the next statement runs and the Result is what the property says, for every integer or string
+   expression and operands whose value is not the empty string. Missing: every other position of try/checked
+   (assignment: refuted below) *)
 Theorem try_program_continues_partial : forall p, safe_t p = true -> m_run_t p = s_run_t p.
 Proof. exact try_refines_l. Qed.
 Print Assumptions try_program_continues_partial.
@@ -253,6 +291,62 @@ Theorem try_program_continues_refuted : forall p, (t_ctx p = TAsg \/ t_ctx p = T
   (t_ctx p = TAsg -> m_run_t p = mkR [EG1; EAfter] XOk).
 Proof. exact try_continues_refuted_l. Qed.
 Print Assumptions try_program_continues_refuted.
+
+(* ------------------------------------------------------------------ nothing is carried between evaluations *)
+(* ONE variable assigned again and again: whatever it held before - any stored value, e.g. a string channel next to an
+   integer channel - after `w = u;`, `w = idf(u);`, `w = mkv();`, `w = mk();` with a value that has a payload it holds exactly
+   that value; a struct member takes every value (also payload-less ones) and `T x = bx.e;` reads it back *)
+Theorem reassign_last_write_wins :
+  (forall b w rs, has_pl (rs_val rs) = true -> rs_how rs <> RFld -> m_rassign b w rs = encode (rs_val rs)) /\
+  (forall fld c, m_fld_assign fld (encode c) = encode c /\ m_decl_from_var (m_fld_assign fld (encode c)) = encode c).
+Proof. exact (conj rassign_last_write_wins_l rfield_last_write_wins_l). Qed.
+Print Assumptions reassign_last_write_wins.
+
+(* a conforming assignment step, started in ANY state of the variable and of the member: it prints what the Spec prints for
+   its own value (match in place or in a shared function behind a parameter) *)
+Theorem reassign_history_free : forall b arms k w fld rs rest, safe_rstep rs = true ->
+  m_rsteps b arms k w fld (rs :: rest) =
+    then_ev (s_rlook arms k (rs_val rs)) (m_rsteps b arms (S k) (m_rassign b w rs) (m_rfield fld rs) rest).
+Proof. exact reassign_step_history_free_l. Qed.
+Print Assumptions reassign_history_free.
+
+(* whole programs: any initial value, any number of assignments of changing variants and payload kinds. Missing:
+   payload-less right-hand sides (refuted below) *)
+Theorem reassign_refines_spec_partial : forall p, safe_r p = true -> m_run_r p = s_run_r p.
+Proof. exact reassign_refines_l. Qed.
+Print Assumptions reassign_refines_spec_partial.
+
+Theorem reassign_refuted_payloadless :
+  let p := mkPR false (mkC (s2l "A") (PInt 1))
+                [mkRS (mkC (s2l "B") (PStr (s2l "s"))) RVar false; mkRS (mkC (s2l "D") PNone) RVar false;
+                 mkRS (mkC (s2l "D") PNone) RFld false] arms_abd in
+  m_run_r p = mkMR [EM 0 1 (VStr (s2l "s")); EM 1 1 (VStr (s2l "s")); EM 2 2 VNo; EDone] XOk /\
+  s_run_r p = mkMR [EM 0 1 (VStr (s2l "s")); EM 1 2 VNo; EM 2 2 VNo; EDone] XOk.
+Proof. exact reassign_payloadless_refuted_l. Qed.
+Print Assumptions reassign_refuted_payloadless.
+
+(* several A / Q / T programs as functions of ONE program, called in any order and any number of times (T items with the
+   operands of the call, Q items with the call's failing link): on the conforming fragment Mech = Spec *)
+Theorem sequence_refines_spec_partial : forall p, safe_s p = true -> m_run_s p = s_run_s p.
+Proof. exact seq_refines_l. Qed.
+Print Assumptions sequence_refines_spec_partial.
+
+(* what call number n prints does not depend on the calls before it (a string-valued try before an integer-valued one, an Err
+   before an Ok, another enum, the same function with other operands): "call n" and then call_with m_item - a function of its
+   own item and operands; and the first call that ends in an error ends the program *)
+Theorem sequence_history_free :
+  (forall items cs1 c cs2, snd (seq_prefix (call_with m_item items) 0 cs1) = XOk ->
+     sr_events (m_run_s (mkPS items (cs1 ++ c :: cs2))) =
+       fst (seq_prefix (call_with m_item items) 0 cs1) ++
+       fst (then_s (ESCall (List.length cs1) :: fst (call_with m_item items c), snd (call_with m_item items c))
+                   (run_seq (call_with m_item items) (S (List.length cs1)) cs2))) /\
+  (forall items cs1 c cs2, snd (seq_prefix (call_with m_item items) 0 cs1) = XOk ->
+     snd (call_with m_item items c) <> XOk ->
+     m_run_s (mkPS items (cs1 ++ c :: cs2)) =
+       mkSR (fst (seq_prefix (call_with m_item items) 0 cs1) ++ ESCall (List.length cs1) :: fst (call_with m_item items c))
+            (snd (call_with m_item items c))).
+Proof. exact (conj seq_history_free_l seq_stops_at_failure_l). Qed.
+Print Assumptions sequence_history_free.
 
 (* ------------------------------------------------------------------ non-vacuity *)
 Example safe_a_example :
@@ -276,7 +370,42 @@ Example safe_m_example :
 Proof. exact suite_example_l. Qed.
 
 Example safe_t_example :
-  let p := mkT true TMain 7 0 (CAdd (CMod CA CB) (CIdx (CLit 3))) in
+  let p := mkT true TMain 7 0 [] [] (TEInt (CAdd (CMod CA CB) (CIdx (CLit 3)))) in
   safe_t p = true /\
   m_run_t p = mkR [EG1; EG2; EArm 1 (VStr (s2l "DivisionByZeroError: Modulo by zero")); EAfter] XOk.
 Proof. vm_compute. split; reflexivity. Qed.
+
+Example safe_t_string_example :
+  let p1 := mkT true TMain 1 0 (s2l "foo") (s2l "bar") (TEStr (SIdx CA)) in
+  let p2 := mkT false TRet 24 3 [] [] (TEInt (CDiv CA CB)) in
+  let p3 := mkT false TDecl 0 0 (s2l "foo") (s2l "bar") (TEStr (SCat SSA SSB)) in
+  safe_t p1 = true /\ safe_t p2 = true /\ safe_t p3 = true /\
+  m_run_t p1 = mkR [EG1; EG2; EArm 0 (VStr (s2l "bob")); EAfter] XOk /\
+  m_run_t p2 = mkR [EG1; EArm 0 (VInt 8); EAfter] XOk /\
+  m_run_t p3 = mkR [EG1; EG2; EArm 0 (VStr (s2l "foobar")); EAfter] XOk.
+Proof. exact try_string_then_int_example. Qed.
+
+Example safe_r_example :
+  let p := mkPR false (mkC (s2l "D") PNone)
+                [mkRS (mkC (s2l "B") (PStr (s2l "s"))) RVar false; mkRS (mkC (s2l "A") (PInt 7)) RCall true;
+                 mkRS (mkC (s2l "B") (PStr (s2l "t"))) RFld false; mkRS (mkC (s2l "A") (PInt 8)) RFld true;
+                 mkRS (mkC (s2l "A") (PInt 9)) RMkv false; mkRS (mkC (s2l "B") (PStr (s2l "u"))) RMk true] arms_abd in
+  safe_r p = true /\
+  m_run_r p = mkMR [EM 0 1 (VStr (s2l "s")); EM 1 0 (VInt 7); EM 2 1 (VStr (s2l "t")); EM 3 0 (VInt 8); EM 4 0 (VInt 9);
+                    EM 5 1 (VStr (s2l "u")); EDone] XOk.
+Proof. exact reassign_example_l. Qed.
+
+(* the seeded shape: a string-valued checked between integer-valued tries through one function, a failing `?` chain, ... *)
+Example safe_s_example :
+  safe_s seq_demo = true /\
+  m_run_s seq_demo =
+    mkSR [ESCall 0; ESIn EG1; ESIn (EArm 0 (VInt 8)); ESIn EAfter;
+          ESCall 1; ESIn EG1; ESIn EG2; ESIn (EArm 0 (VStr (s2l "bob"))); ESIn EAfter;
+          ESCall 2; ESIn EG1; ESIn (EArm 0 (VInt 8)); ESIn EAfter;
+          ESCall 3; ESIn EG1; ESIn (EArm 1 (VStr (s2l "DivisionByZeroError: Division by zero"))); ESIn EAfter;
+          ESCall 4; ESIn (EEnter 1); ESIn (EEnter 2); ESIn (EArm 1 (VStr (s2l "e2"))); ESIn EAfter;
+          ESCall 5; ESIn EG1; ESIn (EArm 0 (VInt 20)); ESIn EAfter;
+          ESCall 6; ESIn (EArm 0 (VInt 7)); ESIn EAfter; ESIn (EBack 1);
+          ESCall 7; ESIn (EEnter 1); ESIn (EEnter 2); ESIn (EPost 1 (VInt 5)); ESIn (EArm 0 (VInt 5)); ESIn EAfter;
+          ESDone] XOk.
+Proof. exact seq_example_l. Qed.
